@@ -394,7 +394,7 @@ def run(ctx):
     d4_failed_status(ctx, rm)
 
 
-CLAIM = {'text': "Decides that the tables which turn 'how the plan ended' into exit_status / reason / raised exception compose to the documented outcome: the except ladder of _run (with handler shadowing resolved through the exception class hierarchy), the state->exception map, the request coroutines' target states and stored exceptions, RequestAbort/RequestStop.exit_status, run_wrapper's except/else plans, the def-use chain from the recorded status to compose_stop, and the FailedStatus chaining. Which status a given schedule produces is not decided.", 'technique': 'table agreement against an oracle written from the statement; exception-hierarchy shadowing; def-use'}
+CLAIM = {'text': "Decides that the tables which turn 'how the plan ended' into exit_status / reason / raised exception compose to the documented outcome: the except ladder of _run (with handler shadowing resolved through the exception class hierarchy), the state->exception map, the request coroutines' target states and stored exceptions, the exit_status of every class of the RunEngineControlException family (closed world over the class hierarchy; each must be a status RunStop has), run_wrapper's except/else plans, the def-use chain from the recorded status to compose_stop, the FailedStatus chaining, and that status failures are pardoned only at teardown. Which status a given schedule produces is not decided.", 'technique': 'table agreement against an oracle written from the statement; exception-hierarchy shadowing; def-use'}
 
 
 RE = "run_engine.py"
